@@ -81,6 +81,8 @@ def run_case(sd, steps, cfg, fault, tag):
     return out["results"], d
 
 
+ALL_KEYS = set()
+SEEN_KEYS = set() # (operation type, file role, call kind, compound?, partial?) of the fault plans already run (this check run)
 RECORDED = []     # fault-free recorded runs, validated against Durability.tla (see checks/c01.py protocol_conformance)
 
 
@@ -108,15 +110,39 @@ def explore(ck, hi, hist, cfg, tier, rng, live_trace, rec_trace, counters, plans
         ck.add_tlc("FaultGen (history %d)" % hi, r)
         plans = r.json_lines
         rng.shuffle(plans)
-        take = 14 if tier == "quick" else 120
-        # stratify: make sure every kind and every errno appears
+        take = 16 if tier == "quick" else 120
+        # where does the k-th call of each kind fall?  (operation type of the API call it belongs to, file role)
+        where, cnt_k, cur_t = {}, {}, "setup"
+        for e in raw:
+            if e["op"] == "mark":
+                m = e["mark"]
+                if m.startswith("call:") and m[5:].isdigit() and int(m[5:]) <= len(steps):
+                    cur_t = steps[int(m[5:]) - 1]["t"]
+                continue
+            kind = {"create_trunc": "create"}.get(e["op"], e["op"])
+            if kind in ("write", "fsync", "fdatasync", "rename", "create", "dirsync"):
+                cnt_k[kind] = cnt_k.get(kind, 0) + 1
+                base = os.path.basename(e.get("path", ""))
+                role = "wal" if base.startswith("wal_") else "man" if base.startswith("MANIFEST") else "snap" if base.startswith("snapshot") else "dir"
+                where[(kind, cnt_k[kind])] = (cur_t, role)
+        # stratify twice: (1) across all histories of this run, prefer plans whose (operation type, call kind, file role,
+        # compound?, partial?) has not been exercised yet - a fault in the rotation after a delete is a different case from
+        # one after an insert; (2) within the history, every kind / errno class / second-fault class appears
         chosen, seen = [], set()
+        gkey = lambda p: where.get((p["kind"], p["k"]), ("?", "?")) + (p["kind"],)
+        ALL_KEYS.update(gkey(p) for p in plans)
+        for p in sorted(plans, key=lambda p: (p["second"] != "none", p["partial"] != "none")):     # simple faults first
+            if gkey(p) in SEEN_KEYS:
+                continue
+            SEEN_KEYS.add(gkey(p)); chosen.append(p)
+            if len(chosen) >= take - 3:
+                break
         for p in plans:
-            key = (p["kind"], p["errno"], p["partial"] != "none", p["second"])
-            if key not in seen or len(chosen) < take // 2:
-                seen.add(key); chosen.append(p)
             if len(chosen) >= take:
                 break
+            key = (p["kind"], p["errno"], p["partial"] != "none", p["second"])
+            if p not in chosen and (key not in seen or len(chosen) < take):
+                seen.add(key); chosen.append(p)
         cases += [("fault", p) for p in chosen]
         # invalid-input family: position x class x (new id | overwrite)
         for _ in range(4 if tier == "quick" else 20):
@@ -239,6 +265,9 @@ def run(tier):
             ck.drift("protocol trace of the fault-free run of %s is not a behaviour of Durability.tla: %d of %d events matched; next event %s %s"
                      % (tag, got, total, json.dumps({k: v for k, v in (nxt or {}).items() if v not in (0, "", [])}), "; ".join(problems[:2])))
     counters["protocol_traces_accepted_by_Durability_tla"] = sum(1 for v in res.values() if v[0])
+    counters["fault_sites_(operation,file,call)_exercised"] = len(SEEN_KEYS)
+    counters["fault_sites_(operation,file,call)_in_the_recorded_runs"] = len(ALL_KEYS)
+    counters["fault_sites_missed"] = sorted("/".join(k) for k in ALL_KEYS - SEEN_KEYS)[:40]
     return judge(ck, live_trace, rec_trace, counters)
 
 
